@@ -958,6 +958,112 @@ func generate(rng *hx.Rand, thorough bool, jobs chan<- func() string) {
 		jobs <- func() string { return seqLine(via, docs) }
 	}
 
+	// ---- histories across values: documents with RELATED names captured one
+	// after the other into different variables of this one process; every
+	// value is judged against its own document at the end.  The model is a
+	// function of the document alone, so any dependence on earlier captures is
+	// a disagreement.  Two families: names made unique to the case by a tag
+	// (what is "first seen" is then decided by the case's own order, and a
+	// replay reproduces it), and names shared by all cases of the run, sent in
+	// an order that depends on the seed.
+	type qname struct{ space, local string }
+	related := func(tag string) [][]qname {
+		u := "urn:" + tag + ":"
+		return [][]qname{
+			// the same concatenation with the split point moved
+			{{u + "cal", "tag-set"}, {u + "calta", "g-set"}, {u + "caltag-", "set"}, {u, "caltag-set"}},
+			{{u + "a", "clowner"}, {u + "acl", "owner"}},
+			{{"", tag + "ab"}, {tag + "a", "b"}, {tag, "ab"}},
+			{{"", "x" + tag}, {"x", tag}},
+			// same local name in different namespaces, same namespace and different local names
+			{{u + "one", "name"}, {u + "two", "name"}, {"", "name"}, {u + "one", "other"}},
+			// case
+			{{u + "Case", "Name"}, {u + "case", "Name"}, {u + "Case", "name"}, {u + "CASE", "NAME"}},
+			// one a prefix of the other, separators that could be taken for one another
+			{{u + "s", "l"}, {u + "s ", "l"}, {u + "s", "_l"}, {u + "s:", "l"}, {u + "s", "l."}},
+		}
+	}
+	// the shapes a name is put in: element, child elements, attribute, element with the attribute on a child
+	docFor := func(c chooser, q qname, shape int, plain bool) []byte {
+		var tree *node
+		switch shape {
+		case 0:
+			tree = el(q.space, q.local, txt("v"))
+		case 1:
+			tree = el("DAV:", "prop", el(q.space, q.local), el(q.space, q.local, txt("w")))
+		case 2:
+			tree = el("DAV:", "prop")
+			tree.attrs = []nattr{{q.space, q.local, "av"}}
+		default:
+			kid := el("urn:k", "k", txt("x"))
+			kid.attrs = []nattr{{q.space, q.local, "av"}, {"", "plain", "p"}}
+			tree = el(q.space, q.local, kid)
+		}
+		doc, _ := serialize(c, tree, plain, 0, false)
+		return doc
+	}
+	var hist []func() string
+	histCase := func(docs [][]byte) {
+		hist = append(hist, func() string { return seqLine("fresh", docs) })
+	}
+	caseNo := 0
+	newTag := func() string { caseNo++; return fmt.Sprintf("h%d", caseNo) }
+	nfam := len(related("x"))
+	for fam := 0; fam < nfam; fam++ {
+		n := len(related("x")[fam])
+		for i := 0; i < n; i++ {
+			for j := 0; j < n; j++ {
+				if i == j {
+					continue
+				}
+				// every ordered pair, in every combination of shapes; also with the first name again at the end
+				for s1 := 0; s1 < 4; s1++ {
+					for s2 := 0; s2 < 4; s2++ {
+						names := related(newTag())[fam]
+						a, b := names[i], names[j]
+						histCase([][]byte{docFor(fixed(0), a, s1, true), docFor(fixed(0), b, s2, true)})
+						if s1 == s2 {
+							names = related(newTag())[fam]
+							a, b = names[i], names[j]
+							histCase([][]byte{docFor(fixed(0), a, s1, true), docFor(fixed(0), b, s2, true), docFor(fixed(0), a, (s2+1)%4, true)})
+						}
+					}
+				}
+			}
+		}
+		// the whole family in a random order, random shapes
+		for k := 0; k < 20*scale; k++ {
+			names := related(newTag())[fam]
+			var docs [][]byte
+			for want := 2 + rng.Intn(5); len(docs) < want; {
+				docs = append(docs, docFor(rng, names[rng.Intn(len(names))], rng.Intn(4), false))
+			}
+			histCase(docs)
+		}
+	}
+	// names shared by all cases of the run: which is seen first depends on the order below
+	for fam := 0; fam < nfam; fam++ {
+		names := related("shared")[fam]
+		for k := 0; k < 40*scale; k++ {
+			var docs [][]byte
+			// (three or four documents: longer than the self-contained cases above, so
+			// that the shortest failing case of a run is one that a replay reproduces)
+			for want := 3 + rng.Intn(2); len(docs) < want; {
+				docs = append(docs, docFor(rng, names[rng.Intn(len(names))], rng.Intn(4), false))
+			}
+			histCase(docs)
+		}
+	}
+	// the order of these cases within the run depends on the seed
+	for i := len(hist) - 1; i > 0; i-- {
+		j := rng.Intn(i + 1)
+		hist[i], hist[j] = hist[j], hist[i]
+	}
+	for _, h := range hist {
+		jobs <- h
+	}
+
+	// ---- typed structures, directly and inside a multistatus
 	for i := 0; i < 8000*scale; i++ {
 		ty := typeNames[i%len(typeNames)]
 		tree := genTyped(rng, ty, reflect.TypeOf(typeTable[ty]()), "", "", 3)
